@@ -455,6 +455,13 @@ class NB:
         self.op(code, [x], [o], table, fields, version=1)
         return o
 
+    def tile(self, x):
+        Xn = self.info(x)
+        mult = self.const_i32("mult", [1] * (len(Xn["shape"]) - 1) + [2])
+        o = self.out("tile", Xn["shape"][:-1] + [Xn["shape"][-1] * 2], Xn["dtype"], (Xn["scale"], Xn["zp"]))
+        self.op("TILE", [x, mult], [o], "TileOptions", {})
+        return o
+
     # CPU side
     def custom(self, x):
         X = self.info(x)
@@ -533,6 +540,47 @@ def network(profile="exact", max_ops=6, dtypes=("int8", "int8", "int8", "uint8",
             menu = ["sslice", "sslice", "split", "concat", "pad", "reshape", "conv", "conv", "dw", "maxpool", "avgpool_valid", "relu", "relu6", "add", "mul", "fc", "padconv", "quantize", "maximum",
                     "transpose", "transpose", "pack", "unpack", "split_v", "split_v"]
             n_ops = draw(st.integers(2, max_ops))
+        if profile == "fanout":
+            # several branches off shared tensors; memory-only operators (RESHAPE) whose input has other consumers, is a network input or is produced by a CPU operator cannot
+            # be bypassed and become copies (Memcpy); every branch end is a model output
+            pool, ends = [x], []
+            for b in range(draw(st.integers(2, 4))):
+                t = draw(st.sampled_from(pool))
+                plan = draw(st.sampled_from(["reshape", "reshape", "direct", "cpu_reshape", "double_reshape", "op_reshape"]))
+                X = nb.info(t)
+                if plan == "cpu_reshape":
+                    if len(X["shape"]) == 4 and X["shape"][0] == 1 and draw(st.booleans()):
+                        t = nb.conv(t, "conv", force_stride=(4, 4))  # stays on the CPU
+                    else:
+                        t = nb.tile(t)
+                    pool.append(t)
+                if plan == "op_reshape":
+                    t = nb.unary(t, "RELU", same_q=True) if draw(st.booleans()) else nb.binary(t, "ADD", None, const=True)
+                    pool.append(t)
+                if plan != "direct":
+                    t = nb.reshape(t)
+                    pool.append(t)
+                    if plan == "double_reshape":
+                        t = nb.reshape(t)
+                X = nb.info(t)
+                r4 = len(X["shape"]) == 4 and X["shape"][0] == 1
+                kind = draw(st.sampled_from(["conv", "relu", "add_const", "maxpool", "mul_const", "none"] if r4 else ["relu", "add_const", "mul_const", "fc", "none"]))
+                if kind == "conv":
+                    t = nb.conv(t)
+                elif kind == "maxpool":
+                    t = nb.pool(t, "maxpool")
+                elif kind == "fc":
+                    t = nb.fc(t)
+                elif kind == "relu":
+                    t = nb.unary(t, "RELU", same_q=True)
+                elif kind in ("add_const", "mul_const"):
+                    t = nb.binary(t, kind.split("_")[0].upper(), None, const=True)
+                pool.append(t)
+                if t not in ends and t not in nb.inputs:
+                    ends.append(t)
+            if not ends:
+                ends.append(nb.unary(x, "RELU", same_q=True))
+            return dict(tensors=nb.tensors, ops=nb.ops, inputs=nb.inputs, outputs=ends)
         approx_tail = None
         if profile == "approx":  # exact-class body, one approximate-class operator in tail position (only memory-only operators may follow)
             menu = list(EXACT_OPS)
